@@ -20,6 +20,7 @@ RULE = (
     'selects >=1 and fewer than all entries (relational cells always)'
     '; pass 5: RFF / index / product-with-index kernels; index-then-operation chains (transpose, diagonal, matmul, second index) on 8x8 operators over 9 slices per side, views of one tensor as the two inputs; lazy diagonal for two inputs'
     '; pass 6: index tensors on batch dimensions; periodic / piecewise-polynomial / cosine kernels; far-from-origin few-against-many rows; index tensors must not be mutated'
+    "; pass 8: every kernel evaluated once in evaluation mode, then its parameters moved in place: all access paths against a freshly built kernel holding the same state"
 )
 REQUIRED = ["lazy_equals_eager", "lazy_index", "index_then", "diag_equals_diagonal", "transpose", "stacked_blocks", "kernel_getitem", "expand_batch", "path:lazy_getitem"]
 ASSUMPTIONS = ["torch dense indexing D[idx] is the reference semantics of an index expression"]
